@@ -1115,8 +1115,9 @@ class Variable(CanBehaveLikeAVariable[T]):
         if self._predicate_type_ == PredicateType.SubClassOfPredicate:
             function_output = function_output()
 
-        # Compute truth considering inversion
-        result_truthy = bool(function_output)
+        # Compute truth considering inversion. Only the output of a predicate is a truth value; an instance (of a class
+        # that may well define __len__ or __bool__) is a value.
+        result_truthy = bool(function_output) if self._predicate_type_ is not None else True
         self._is_false_ = result_truthy if self._invert_ else not result_truthy
 
         if self._yield_when_false_ or not self._is_false_:
